@@ -334,6 +334,9 @@ func callMethod(fr *frame, x iface, name string, args []value) (value, bool) {
 }
 
 func renderArg(fr *frame, a value, verb byte) string {
+	if containsSym(a) {
+		return "<sym>"
+	}
 	switch x := a.(type) {
 	case iface:
 		if x.t == nil {
